@@ -5,7 +5,9 @@ namespace jv {
 
 static const std::vector<std::string> ALL = {"A/bmi2-adx", "A/baseline", "As/static-bmi2", "B/portable64", "C/portable32"};
 static const std::vector<std::string> ALLG = {"A/bmi2-adx", "A/baseline", "As/static-bmi2", "B/portable64", "C/portable32", "G/g++-asm"};
-static const std::vector<std::string> ALLGARM = {"A/bmi2-adx", "A/baseline", "As/static-bmi2", "B/portable64", "C/portable32", "G/g++-asm", "ARM64/interp", "ARMv6M/interp"};
+static const std::vector<std::string> ALLGARM = {"A/bmi2-adx", "A/baseline", "As/static-bmi2", "B/portable64", "C/portable32", "D/portable64-O0", "G/g++-asm", "ARM64/interp", "ARMv6M/interp"};
+static const std::vector<std::string> DBG = {"D/portable64-O0"};
+static const char* DBGNOTE = "the debug build (-O0, portable code): nothing an optimiser's use of __restrict, of evaluation order or of dead stores could mask (20x slower)";
 static const std::vector<std::string> FAST = {"A/bmi2-adx", "A/baseline", "As/static-bmi2", "B/portable64"};
 
 static Batch mk(const std::string& sc, uint64_t runs, const std::vector<std::string>& reps, const std::string& mode = "single", std::map<std::string, int64_t> knobs = {}, const std::string& note = "") {
@@ -28,6 +30,7 @@ bool build_check(const std::string& prop, const std::string& tier, CheckSpec& s,
         s.rule = "case = (group, form, fault token(s), source element, model verdict) of one damaged-or-intact encoding delivered to both decoders; distinct by that tuple; non-trivial iff the fault actually changed the bytes delivered";
         s.batches.push_back(mk("enc", q ? 16 : 16, FAST, "single", {{"enumerate", 1}, {"allbits", q ? 0 : 1}}, "enumeration of the single-fault set: every named Byzantine substitution and flag manipulation, a flip in every byte (every bit in thorough), for identity/generator/multiples in both groups and both forms"));
         s.batches.push_back(mk("enc", q ? 1500 : 20000, ALL, "single", {}, "seeded sampling of elements, positions and double faults"));
+        s.batches.push_back(mk("enc", q ? 40 : 1500, DBG, "single", {}, DBGNOTE));
         s.batches.push_back(mk("enc", q ? 60 : 2000, FAST, "duo", {}, "two senders/receivers as concurrent caller threads under the seeded scheduler"));
         return true;
     }
@@ -37,6 +40,7 @@ bool build_check(const std::string& prop, const std::string& tier, CheckSpec& s,
         s.batches.push_back(mk("wkd", q ? 1400 : 60000, FAST, "single", {{"focus", focus}}, "histories biased towards the ops of this property; party runs on a seed-chosen replica through a seed-chosen view (C or C++ API)"));
         s.batches.push_back(mk("wkd", q ? 400 : 20000, FAST, "single", {{"focus", 0}}, "unbiased swarm mix"));
         s.batches.push_back(mk("wkd", q ? 48 : 3000, {"C/portable32"}, "single", {{"focus", focus}, {"maxops", 12}}, "32-bit-word replica (10x slower)"));
+        s.batches.push_back(mk("wkd", q ? 32 : 2000, DBG, "single", {{"focus", focus}, {"maxops", 10}}, DBGNOTE));
         s.batches.push_back(mk("wkd", q ? 60 : 3000, FAST, "duo", {{"focus", focus}, {"maxops", 12}}, "two histories as concurrent caller threads under the seeded scheduler (preemption inside field multiplications)"));
         s.batches.push_back(mk("wkd", q ? 96 : 4000, FAST, "single", {{"focus", focus}, {"wide", 1}, {"maxops", 9}}, "wide systems: 12..80 slots, keys with long free-slot arrays, lists with slot indices beyond 64"));
         return true;
@@ -83,6 +87,7 @@ bool build_check(const std::string& prop, const std::string& tier, CheckSpec& s,
             : "case = one target-group operation: (entry point, exponent class or number of rejections); non-trivial iff the exponent came from a faulted stream or is >= r";
         s.batches.push_back(mk("sample", q ? 3000 : 100000, FAST, "single", {{"focus", focus}}, "stream faults: rejection storms, boundary candidates (modulus-1, modulus, modulus+1, 0, masked-bit variants), digit = |x|-1 / |x|, tuples recombining to r-1, r, r+1, constant bytes, sign bytes"));
         s.batches.push_back(mk("sample", q ? 100 : 4000, {"C/portable32"}, "single", {{"focus", focus}}, "32-bit words: the exponent decomposition uses a hand-written long division there"));
+        s.batches.push_back(mk("sample", q ? 48 : 2000, DBG, "single", {{"focus", focus}}, DBGNOTE));
         s.batches.push_back(mk("sample", q ? 100 : 3000, ALL, "crossrep", {{"focus", focus}}, "platform independence: identical results and identical stream consumption on every replica"));
         s.batches.push_back(mk("sample", q ? 100 : 4000, FAST, "duo", {{"focus", focus}}, "two callers as concurrent threads under the seeded scheduler"));
         return true;
@@ -91,6 +96,7 @@ bool build_check(const std::string& prop, const std::string& tier, CheckSpec& s,
         s.rule = "case = one LQ-IBE interaction: (op, requested key length, master scalar >= r?, negative variant: other identity / other master / substituted ciphertext / damaged ciphertext read without validation / marshalling hop, stream faults attached); non-trivial iff a fault or negative variant is involved or the master scalar is unreduced";
         s.batches.push_back(mk("lq", q ? 3000 : 100000, FAST, "single", {}, "PKG, sender and receiver on a seed-chosen replica and view; master scalar delivered through the store with bit flips"));
         s.batches.push_back(mk("lq", q ? 64 : 3000, {"C/portable32"}, "single", {}, "32-bit words"));
+        s.batches.push_back(mk("lq", q ? 32 : 1500, DBG, "single", {}, DBGNOTE));
         s.batches.push_back(mk("lq", q ? 64 : 3000, ALL, "crossrep", {}, "sender and receiver built with different back ends hash identical bytes"));
         s.batches.push_back(mk("lq", q ? 80 : 3000, FAST, "duo", {}, "two LQ-IBE systems as concurrent caller threads under the seeded scheduler"));
         return true;
@@ -99,6 +105,7 @@ bool build_check(const std::string& prop, const std::string& tier, CheckSpec& s,
         s.rule = "case = one product or single pairing over reused pair records: the shape string of the call (a = affine pair, p = prepared pair, 0 suffix = pair with an identity member, in list order); non-trivial iff the list has more than one pair or contains an identity";
         s.batches.push_back(mk("pairs", q ? 2500 : 80000, FAST, "single", {}, "long-lived record arrays reused across products: slices, re-pointing, re-preparing, identities, shared prepared points"));
         s.batches.push_back(mk("pairs", q ? 60 : 3000, {"C/portable32"}, "single", {}, "32-bit words"));
+        s.batches.push_back(mk("pairs", q ? 30 : 1500, DBG, "single", {}, DBGNOTE));
         s.batches.push_back(mk("pairs", q ? 100 : 4000, FAST, "duo", {}, "two callers computing products concurrently under the seeded scheduler"));
         return true;
     }
@@ -145,6 +152,7 @@ bool build_check(const std::string& prop, const std::string& tier, CheckSpec& s,
         register_static_phases(prop, s);
         s.batches.push_back(mk("conc", q ? 400 : 40000, FAST, "single", {}, "2-6 real threads under the serialising seeded scheduler; write trap on the replica image and the shared-input arena; libc traps"));
         s.batches.push_back(mk("conc", q ? 12 : 600, {"C/portable32"}, "single", {}, "32-bit words"));
+        s.batches.push_back(mk("conc", q ? 8 : 400, DBG, "single", {}, DBGNOTE));
         s.batches.push_back(mk("conc", q ? 40 : 2000, {"G/g++-asm"}, "single", {}, "the same sources built with g++"));
         s.batches.push_back(mk("wkd", q ? 160 : 8000, FAST, "single", {{"focus", 0}}, "WKD-IBE histories with every attribute list in the library's own format in caller memory: a list that differs after the call from what the caller built is state kept in (or written through) a const input"));
         s.batches.push_back(mk("wkd", q ? 40 : 2000, FAST, "duo", {{"focus", 0}, {"maxops", 12}}, "the same as two concurrent caller threads (M-solo: each history's event log equals its log when run alone)"));
